@@ -38,7 +38,11 @@ Record params := {
   p_growth : nat;            (* GROWTH_FACTOR *)
   p_esize : ekind -> N;      (* get_element_size *)
   p_limit : Z;               (* largest allocation (in cells) assumed to succeed *)
-  p_esize_mod : N            (* 256 ^ sizeof(DynArray.elem_size): what an element size is truncated to when stored (measured) *)
+  p_esize_mod : N;           (* 256 ^ sizeof(DynArray.elem_size): what an element size is truncated to when stored (measured) *)
+  (* MEASURED on the current code by replaying the witness in a sanitized child process (tools/gen/dump_rtfix.c): does
+     dyn_array_push_struct survive a source pointer into the array's own block when it has to grow
+     (proposed_fixes/C20-push-own-struct-elem.diff).  false on the pinned tree: the model follows the code present. *)
+  p_push_self_safe : bool
 }.
 
 Record dyn := {
@@ -196,7 +200,10 @@ Inductive op :=
 | PushStruct (bs : list byte)
 | GetStruct (i : Z)
 | SetStruct (i : Z) (bs : list byte)
-| PopStruct (size : N).
+| PopStruct (size : N)
+| PushStructElem (i : Z)          (* dyn_array_push_struct(arr, dyn_array_get_struct(arr, i), arr->elem_size):
+                                    what the transpiler emits for (array_push xs (at xs i)) on an array<struct> *)
+| SetStructElem (i j : Z).        (* dyn_array_set_struct(arr, i, dyn_array_get_struct(arr, j), arr->elem_size): (array_set xs i (at xs j)) *)
 
 Definition cell_or_uninit (o : option cell) : cell := match o with Some c => c | None => Uninit end.
 
@@ -297,6 +304,24 @@ Definition step (P : params) (s : dyn) (o : op) : res :=
                | Some c => ROk (set_len s n) (OPop true c)
                | None => RCrash
                end
+      end
+  | PushStructElem i =>
+      if negb (ekind_eqb (d_kind s) EStruct) then RAbort else          (* get_struct asserts the element type *)
+      if negb (in_range i (d_len s)) then RAbort else                   (* get_struct answers NULL -> assert(struct_ptr != NULL) *)
+      match rd (d_data s) (Z.to_nat i) with
+      | Some (Blob bs) =>
+          (* the source lives in the block that dyn_array_grow reallocs: memcpy then reads the freed block *)
+          if Nat.leb (d_cap s) (d_len s) && negb (p_push_self_safe P) then RCrash
+          else push_struct P s bs
+      | _ => RCrash
+      end
+  | SetStructElem i j =>
+      if negb (ekind_eqb (d_kind s) EStruct) then RAbort else
+      if negb (in_range j (d_len s)) then RAbort else                   (* source NULL -> assert *)
+      if negb (in_range i (d_len s)) then ROk s OUnit else              (* "Index out of bounds" message, nothing written *)
+      match rd (d_data s) (Z.to_nat j) with
+      | Some c => match wr (d_data s) (Z.to_nat i) c with Some els => ROk (set_data s els) OUnit | None => RCrash end
+      | None => RCrash
       end
   end.
 
@@ -401,6 +426,16 @@ Definition lstep (P : params) (s : lst) (o : op) : lres :=
       | [] => LOk s (OPop false Uninit)
       | _ => LOk (with_items s (removelast (l_items s))) (OPop true (last (l_items s) Uninit))
       end
+  | PushStructElem i =>
+      if negb (p_push_self_safe P) then LExcluded else      (* whether it works depends on the capacity, which a sequence does not have *)
+      if negb (ekind_eqb (l_kind s) EStruct) then LAbort else
+      if negb (in_range i (length (l_items s))) then LAbort else
+      LOk (with_items s (l_items s ++ [nth (Z.to_nat i) (l_items s) Uninit])) OUnit
+  | SetStructElem i j =>
+      if negb (ekind_eqb (l_kind s) EStruct) then LAbort else
+      if negb (in_range j (length (l_items s))) then LAbort else
+      if negb (in_range i (length (l_items s))) then LOk s OUnit else
+      LOk (with_items s (lupd (l_items s) (Z.to_nat i) (nth (Z.to_nat j) (l_items s) Uninit))) OUnit
   end.
 
 Inductive lfin := LFin (s : lst) | LAborted | LExcl.
